@@ -45,9 +45,14 @@ def _safe_str(obj: Any) -> str:
     try:
         return str(obj)
     except Exception as exc:
-        return "<Unrepresentable {!r}: {!r} {!r}>".format(
+        try:
+            exc_text = repr(exc)
+        except Exception:
+            # The exception can be as unprintable as the object itself.
+            exc_text = f"<{type(exc).__name__}>"
+        return "<Unrepresentable {!r}: {} {!r}>".format(
             type(obj),
-            exc,
+            exc_text,
             "\n".join(traceback.format_stack()),
         )
 
